@@ -40,10 +40,21 @@ type ECall struct {
 type EQuant struct {
 	Forall bool
 	Var    string
-	VType  string // "" (int) or a declared type: "string", "bool", "*T", "*pkg.T"
+	VarTyp string // "" / "int": integer variable; "string": string variable (map keys)
 	Lo, Hi Expr // nil when unbounded
 	Body   Expr
 }
+
+// varSort is the SMT sort of the bound variable.
+func (q *EQuant) varSort() Sort {
+	if q.VarTyp == "string" {
+		return SStr
+	}
+	return SInt
+}
+// isRef: the bound variable ranges over the references of a struct type ("*T").
+func (q *EQuant) isRef() bool { return strings.HasPrefix(q.VarTyp, "*") }
+
 type ECond struct{ C, A, B Expr }
 
 // EMethod is "x.Name(args)": a package-qualified function or macro when x is
@@ -254,22 +265,17 @@ func (ps *parser) unary() (Expr, error) {
 			return nil, fmt.Errorf("quantifier variable expected at %d in %q", v.pos, ps.src)
 		}
 		q := &EQuant{Forall: t.text == "forall", Var: v.text}
-		// optional type of the bound variable: "forall e *Entry :: ...",
-		// "forall k string :: ..." (unbounded quantifiers only)
-		if ps.peek().kind == "op" && ps.peek().text == "*" {
+		if ps.peek().kind == "ident" && (ps.peek().text == "string" || ps.peek().text == "int") {
+			q.VarTyp = ps.next().text
+		} else if ps.peek().kind == "op" && ps.peek().text == "*" {
+			// "*T": the variable ranges over the references to objects of
+			// the named struct type T of the contract's package
 			ps.next()
 			tn := ps.next()
 			if tn.kind != "ident" {
 				return nil, fmt.Errorf("type name expected after * at %d in %q", tn.pos, ps.src)
 			}
-			q.VType = "*" + tn.text
-			if ps.peek().kind == "op" && ps.peek().text == "." {
-				ps.next()
-				tn2 := ps.next()
-				q.VType += "." + tn2.text
-			}
-		} else if ps.peek().kind == "ident" && ps.peek().text != "in" {
-			q.VType = ps.next().text
+			q.VarTyp = "*" + tn.text
 		}
 		if ps.peek().kind == "ident" && ps.peek().text == "in" {
 			ps.next()
@@ -488,6 +494,7 @@ type FuncContract struct {
 	Overflow  bool     // emit overflow obligations for signed arithmetic too
 	Wraps     bool     // unsigned arithmetic wraps intentionally; no underflow obligations
 	Fresh     []string // result names declared fresh (allocated by the call)
+	Allocates []string // struct types whose new objects the call initialises; "*" = objects of any kind
 	IsIface   bool
 	IsExtern  bool
 	Params    []string // for iface/extern contracts written with explicit parameter names
@@ -495,6 +502,7 @@ type FuncContract struct {
 	Uses      []string // lemmas assumed at entry (proved separately)
 	PostUses  []string // lemmas assumed at every return
 	CallSites []*CallSiteSpec
+	EntrySets []*CallSiteSpec // "at entry set g = E": ghost assignments at function entry
 	Raw       []string
 }
 
@@ -517,6 +525,7 @@ func (fc *FuncContract) merge(o *FuncContract) {
 	}
 	fc.MayPanic = fc.MayPanic || o.MayPanic
 	fc.Mutates = fc.Mutates || o.Mutates
+	fc.Allocates = append(fc.Allocates, o.Allocates...)
 	fc.Opaque = fc.Opaque || o.Opaque
 	fc.Pure = fc.Pure || o.Pure
 	fc.Deterministic = fc.Deterministic || o.Deterministic
@@ -531,6 +540,7 @@ func (fc *FuncContract) merge(o *FuncContract) {
 	fc.Uses = append(fc.Uses, o.Uses...)
 	fc.PostUses = append(fc.PostUses, o.PostUses...)
 	fc.CallSites = append(fc.CallSites, o.CallSites...)
+	fc.EntrySets = append(fc.EntrySets, o.EntrySets...)
 	fc.Raw = append(fc.Raw, o.Raw...)
 }
 
@@ -541,6 +551,33 @@ type CallSiteSpec struct {
 	Ordinal int
 	Clause  *Clause
 	Let     string // "at call X let NAME = E": spec-level name bound after the call
+	Target  string // "set" clauses: the scalar ghost that is assigned
+}
+
+// setGhosts names the ghosts this contract assigns with "set" clauses.
+func (fc *FuncContract) setGhosts() []string {
+	var out []string
+	seen := map[string]bool{}
+	for _, l := range [][]*CallSiteSpec{fc.EntrySets, fc.CallSites} {
+		for _, cs := range l {
+			if cs.Target != "" && !seen[cs.Target] {
+				seen[cs.Target] = true
+				out = append(out, cs.Target)
+			}
+		}
+	}
+	return out
+}
+
+// parseSet splits "g = E" of a set clause.
+func parseSet(src string) (string, Expr, error) {
+	k := strings.Index(src, "=")
+	if k <= 0 || (k+1 < len(src) && src[k+1] == '=') {
+		return "", nil, fmt.Errorf("set clause needs the form \"ghost = expr\": %q", src)
+	}
+	name := strings.TrimSpace(src[:k])
+	e, err := parseExpr(strings.TrimSpace(src[k+1:]))
+	return name, e, err
 }
 
 type Macro struct {
@@ -592,7 +629,7 @@ var clauseKeywords = map[string]bool{
 	"spec": true, "pred": true, "func": true, "iface": true, "extern": true, "lemma": true,
 	"requires": true, "ensures": true, "modifies": true, "loop": true, "maypanic": true, "mutates": true,
 	"opaque": true, "pure": true, "assume": true, "noinline": true, "overflow": true,
-	"wraps": true, "fresh": true, "at": true, "induction": true, "params": true,
+	"wraps": true, "fresh": true, "allocates": true, "at": true, "induction": true, "params": true,
 	"ghost": true, "chaninv": true, "ufunc": true, "immutable": true, "inline": true, "uses": true, "postuses": true, "private": true, "deterministic": true, "pkginv": true,
 }
 
@@ -802,6 +839,16 @@ func parseContractLines(pkg string, lines []string) (*PkgContracts, error) {
 				return nil, fmt.Errorf("%s: at outside func", pkg)
 			}
 			f := strings.Fields(rest)
+			if len(f) >= 4 && f[0] == "entry" && f[1] == "set" {
+				// at entry set g = E
+				src := strings.TrimSpace(rest[strings.Index(rest, "set")+3:])
+				name, e, err := parseSet(src)
+				if err != nil {
+					return nil, fmt.Errorf("%s: %s: %v", pkg, s, err)
+				}
+				cur.EntrySets = append(cur.EntrySets, &CallSiteSpec{Target: name, Clause: &Clause{Kind: "entryset", Src: src, E: e}})
+				continue
+			}
 			if len(f) < 4 || f[0] != "call" {
 				return nil, fmt.Errorf("%s: bad at clause %q", pkg, s)
 			}
@@ -831,6 +878,15 @@ func parseContractLines(pkg string, lines []string) (*PkgContracts, error) {
 					return nil, fmt.Errorf("%s: %s: %v", pkg, s, err)
 				}
 				cur.CallSites = append(cur.CallSites, &CallSiteSpec{Callee: callee, Ordinal: ord, Let: lname, Clause: &Clause{Kind: "calllet", Src: "let " + lname + " = " + src, E: e}})
+				continue
+			}
+			if kw2 == "set" {
+				// at call NAME#K set g = E (ghost assignment after the call)
+				name, e, err := parseSet(rest2)
+				if err != nil {
+					return nil, fmt.Errorf("%s: %s: %v", pkg, s, err)
+				}
+				cur.CallSites = append(cur.CallSites, &CallSiteSpec{Callee: callee, Ordinal: ord, Target: name, Clause: &Clause{Kind: "callset", Src: rest2, E: e}})
 				continue
 			}
 			if kw2 != "assert" && kw2 != "assume" {
@@ -884,6 +940,13 @@ func parseContractLines(pkg string, lines []string) (*PkgContracts, error) {
 		case "fresh":
 			for _, n := range strings.Split(rest, ",") {
 				cur.Fresh = append(cur.Fresh, strings.TrimSpace(n))
+			}
+		case "allocates":
+			if strings.TrimSpace(rest) == "" {
+				cur.Allocates = append(cur.Allocates, "*")
+			}
+			for _, n := range strings.FieldsFunc(rest, func(r rune) bool { return r == ',' || r == ' ' }) {
+				cur.Allocates = append(cur.Allocates, n)
 			}
 		case "params":
 			for _, n := range strings.Split(rest, ",") {
